@@ -34,7 +34,10 @@ class Tbl(Stub):
         self.columns = {}
 
     def __setitem__(self, name, col):
-        self.ops.append(("cols", (name,), [col], {"direct": True}))
+        if name in self.columns:
+            self.ops.append(("recol", name, "item assignment to an existing column"))
+        else:
+            self.ops.append(("cols", (name,), [col], {"direct": True}))
         self.columns[name] = col
 
     def add_columns(self, columns, names=None, *a, **k):
@@ -45,7 +48,48 @@ class Tbl(Stub):
             self.columns[n] = c
 
     def write(self, path, **kw):
+        self.n_writes = getattr(self, "n_writes", 0) + 1
+        if getattr(self, "fail_write", None) == self.n_writes:
+            from nssvc.interp import UserRaise
+
+            self.ops.append(("write-failed", path))
+            raise UserRaise(OSError(28, "injected: no space left on device (write %d)" % self.n_writes))
         self.ops.append(("write", path, dict(kw), sorted(self.columns), sorted(self.meta)))
+
+    # every way astropy offers to change or drop a column that is already in the table: logged, so that "never modified after being added" is checkable
+    def replace_column(self, name, col, *a, **k):
+        self.ops.append(("recol", name, "replace_column"))
+        self.columns[name] = col
+
+    def remove_column(self, name):
+        self.ops.append(("recol", name, "remove_column"))
+        self.columns.pop(name, None)
+
+    def remove_columns(self, names):
+        for n in list(names):
+            self.remove_column(n)
+
+    def keep_columns(self, names):
+        for n in [c for c in self.columns if c not in list(names)]:
+            self.remove_column(n)
+
+    def rename_column(self, name, new_name):
+        self.ops.append(("recol", name, "rename_column"))
+        if name in self.columns:
+            self.columns[new_name] = self.columns.pop(name)
+
+    def __delitem__(self, name):
+        self.remove_column(name)
+
+    def __getitem__(self, name):
+        return self.columns[name]
+
+    def __contains__(self, name):
+        return name in self.columns
+
+    @property
+    def colnames(self):
+        return list(self.columns)
 
     def __nss_len__(self):
         """number of rows: the number of events that survived the geometry stage (0 is a possible value: an empty table is a table)"""
@@ -85,14 +129,24 @@ def fresh(axis, name, log, stage):
     return a
 
 
+def time_col(axis, log):
+    """the observation times of a Target-mode run (astropy Time in the real code): a per-event column whose numeric views (mjd, jd, ...)
+    are further per-event arrays"""
+    a = fresh(axis, "val_times", log, "geom")
+    for name in ("mjd", "jd", "jd1", "jd2", "unix", "gps", "decimalyear"):
+        setattr(a, name, fresh(axis, "val_times_" + name, log, "geom"))
+    return a
+
+
 class Model:
     """one symbolic run of compute() for a concrete choice of (mode, optical, radio, write_stages)"""
 
-    def __init__(self, mode="Diffuse", optical=True, radio=True, write_stages=False, spectrum="mono", cloud="none", fail_stage=None):
+    def __init__(self, mode="Diffuse", optical=True, radio=True, write_stages=False, spectrum="mono", cloud="none", fail_stage=None, fail_write=None):
         from nuspacesim.config import NssConfig, Simulation, Detector
 
         self.mode, self.optical, self.radio, self.write_stages = mode, optical, radio, write_stages
         self.fail_stage = fail_stage  # name of a stage whose body raises (fault inside a stage)
+        self.fail_write = fail_write  # ordinal of a table write that raises OSError (fault inside the writer)
         sim = Simulation(mode=mode)
         if spectrum == "power":
             sim.spectrum = Simulation.PowerSpectrum()
@@ -165,7 +219,7 @@ class Model:
             def h(interp, self_, numtrajs, *a, **k):
                 log.append(("call", type(self_).__name__ + ".__call__", (numtrajs,) + a, k))
                 interp.rng_draws.append({"name": "geometry", "where": "geometry stage"})
-                return tuple(fresh(kept, n, log, "geom") for n in names)
+                return tuple(time_col(kept, log) if n == "val_times" else fresh(kept, n, log, "geom") for n in names)
 
             return h
 
@@ -265,11 +319,13 @@ class Model:
             state["kept"] = Axis("kept")
             state["ops"] = []
             state["tbl"] = Tbl(state["ops"])
+            state["tbl"].fail_write = self.fail_write
             cfg, table = harness.sym_config(self.base)
             state["cfg"], state["table"] = cfg, table
             it.overrides = self.overrides(it, state)
             runs.append(dict(state))
-            return C.compute, [cfg], {"output_file": "OUT.fits", "write_stages": self.write_stages}
+            # write_stages=None: the argument is not passed at all (the default of compute() is part of its interface)
+            return C.compute, [cfg], dict({"output_file": "OUT.fits"}, **({} if self.write_stages is None else {"write_stages": self.write_stages}))
 
         paths = it.explore(mk)
         for p, st in zip(paths, runs):
